@@ -206,8 +206,24 @@ type fSeries struct {
 
 func (f *fSeries) elemFixed() uint64 { return flatFixedLen(f.t.Elem) }
 
+// reAdapter is ONE serializable object that the item callback re-points at element i on every
+// call (callers that adapt their own element type often do this): what item(i) returned is only
+// good until the next call.
+type reAdapter struct{ cur Flat }
+
+func (a *reAdapter) Serialize(w *codec.EncodingWriter) error { return a.cur.Serialize(w) }
+func (a *reAdapter) ByteLength() uint64                      { return a.cur.ByteLength() }
+func (a *reAdapter) FixedLength() uint64                     { return a.cur.FixedLength() }
+
 func (f *fSeries) Serialize(w *codec.EncodingWriter) error {
 	item := func(i uint64) codec.Serializable { return f.elems[i] }
+	if len(f.elems)%2 == 1 {
+		ad := &reAdapter{}
+		item = func(i uint64) codec.Serializable {
+			ad.cur = f.elems[i]
+			return ad
+		}
+	}
 	if f.t.Kind == "vec" {
 		return w.Vector(item, f.elemFixed(), uint64(len(f.elems)))
 	}
@@ -500,11 +516,11 @@ func flatOf(t *Ty, v *Val) Flat {
 		copy(f.v[:], v.Bytes)
 		return f
 	case "bytes":
-		return &fByteVec{b: append([]byte{}, v.Bytes...), n: t.N}
+		return &fByteVec{b: spare(append([]byte{}, v.Bytes...)), n: t.N}
 	case "bitvec":
-		return &fBitVec{b: packBits(v.Bits, false), n: t.N}
+		return &fBitVec{b: spare(packBits(v.Bits, false)), n: t.N}
 	case "bitlist":
-		return &fBitList{b: packBits(v.Bits, true), limit: t.N}
+		return &fBitList{b: spare(packBits(v.Bits, true)), limit: t.N}
 	case "vec", "list":
 		if t.Elem.Kind == "u" && t.Elem.N == 1 {
 			b := make([]byte, len(v.Seq))
@@ -512,9 +528,9 @@ func flatOf(t *Ty, v *Val) Flat {
 				b[i] = byte(e.U.Uint64())
 			}
 			if t.Kind == "vec" {
-				return &fByteVec{b: b, n: t.N, asSeq: true}
+				return &fByteVec{b: spare(b), n: t.N, asSeq: true}
 			}
-			return &fByteList{b: b, limit: t.N}
+			return &fByteList{b: spare(b), limit: t.N}
 		}
 		if t.Kind == "list" && t.Elem.Kind == "root" {
 			f := &fRootList{limit: t.N, roots: make([]tree.Root, len(v.Seq))}
@@ -572,3 +588,14 @@ func flatDecode(f Flat, data []byte) error {
 }
 
 var _ = binary.LittleEndian
+
+// spare returns the same bytes as a window into a larger buffer whose remaining capacity holds
+// non-zero junk (a list shrunk in place, a slice of a bigger array): only len(b) bytes count.
+func spare(b []byte) []byte {
+	buf := make([]byte, len(b)+70)
+	for i := range buf {
+		buf[i] = 0xe7
+	}
+	copy(buf, b)
+	return buf[:len(b)]
+}
